@@ -13,6 +13,7 @@ import CtyModel.Lemmas.d16bShape
 set_option linter.unusedSimpArgs false
 set_option linter.unusedVariables false
 namespace CtyModel
+set_option linter.unusedSectionVars false
 namespace D16b
 open Refine Msgpack RefineGo MpGo Generated.MpUnknownFns MpUnknownFnsTie
 
@@ -157,6 +158,119 @@ theorem loop_eq (ty : Ty) (dec : Dec) (body : Buf) (ec el : Int) (ret : RefineGo
                   cases rest with
                   | nil => lp_simp [er_err]
                   | cons v rest' => lp_simp [ih]
+
+
+theorem fin_congr {x y : Res RefineGo.GoVal} (m : String) (h : er x = er y) :
+    er (toV (recoverWith (.err m) x)) = er (toV (recoverWith (.err m) y)) := by
+  cases x <;> cases y <;> simp [er, recoverWith, toV] at h ⊢
+  subst h; rfl
+
+/-- the code after the loop: the known-length refusal, then `builder.NewValue()` -/
+def kFin (ty : Ty) : Builder → D17.LenSt → Res RefineGo.GoVal := fun b st =>
+  if (((st.notNull && RefineGo.isListType ty) && decide (st.minLen = st.maxLen)) && decide (st.minLen > (0 : Int))) then
+    .err (newErrorf "invalid refinements for unknown value: a list of known length is not unknown")
+  else (builderNewValue b).bind fun r => .ok r
+
+theorem isListType_eq (ty : Ty) : RefineGo.isListType ty = D17.isListTy ty := by cases ty <;> rfl
+
+/-- what the hand-written decoder does after the loop, in the same vocabulary -/
+theorem kFin_eq (ty : Ty) (b : Builder) (st : D17.LenSt) :
+    toV (kFin ty b st) =
+      (if st.notNull && D17.isListTy ty && st.minLen == st.maxLen && decide (st.minLen > 0) then
+        .err (newErrorf "invalid refinements for unknown value: a list of known length is not unknown")
+       else Refine.newValue b) := by
+  unfold kFin
+  rw [isListType_eq]
+  split
+  · rename_i h; simp at h; obtain ⟨⟨⟨ha, hb⟩, hc⟩, hd⟩ := h; simp [ha, hb, hc, toV]; intro hh; omega
+  · rename_i h; simp at h
+    have : (st.notNull && D17.isListTy ty && st.minLen == st.maxLen && decide (st.minLen > 0)) = false := by
+      simp; intro a b c; exact h a b c
+    rw [this]
+    cases hn : Refine.newValue b <;> simp [builderNewValue, hn, Res.map, toV]
+
+theorem fin_model {x : Res RefineGo.GoVal} {y : Res Value} (m : String) (h : toV x = y) :
+    er (toV (recoverWith (.err m) x)) = er (recoverErr y) := by
+  subst h
+  cases x with
+  | ok g => cases g <;> rfl
+  | _ => rfl
+
+set_option maxHeartbeats 2000000 in
+/-- the translated function on a refinement MAP under type code 12 with a body of 2..1024 bytes, for a type that is
+not the dynamic placeholder: the builder is started, the loop runs for the announced entries, then `kFin` -/
+theorem body_eq (len n : Nat) (stream : List Item) (ty : Ty) (hl : ¬ len ≤ 1) (hb : ¬ len > 1024) (hd : ty.isDyn = false) :
+    unmarshalUnknownValue E (.atItem (.ext 12 len (.map n) stream)) ty =
+      recoverWith (.err (newErrorf "invalid refinements for unknown value: %v"))
+        ((Refine.init (Value.unknown ty)).bind fun b0 =>
+          unmarshalUnknownValue_loop_1 E .past ty [.body (.map n) stream] (n : Int) (len : Int) .nilVal 12 (kOf (kFin ty)) n 0 b0 none
+            9223372036854775807 0 false (.items stream)) := by
+  have h1 : ¬ (len : Int) ≤ 1 := by omega
+  have h2 : ¬ (len : Int) > 1024 := by omega
+  have h3 : ¬ ((len : Int) < 0) := by omega
+  delta kOf kFin
+  simp [unmarshalUnknownValue, decodeExtHeader, h1, h2, h3, makeBytes, readBody, newBodyDecoder, decodeMapLen,
+    hl, hb, hd, valRefine, unknownVal, toValue, toValue?, optRes]
+
+set_option maxHeartbeats 2000000 in
+/-- THE GENERAL TIE of the decoder: for every extension item and every requested type the translated
+`unmarshalUnknownValue` answers what the hand-written `D17.unmarshal` answers, up to the text of an error -/
+theorem unmarshalUnknownValue_eq (code : Int) (len : Nat) (hdr : ExtHdr) (stream : List Item) (ty : Ty) :
+    er (toV (unmarshalUnknownValue E (.atItem (.ext code len hdr stream)) ty)) =
+      er (D17.unmarshal E (.ext code len hdr stream) ty) := by
+  by_cases hl : len ≤ 1
+  · rw [dec_small E code len hdr stream ty hl]
+    simp [D17.unmarshal, hl, recoverErr, toV]
+  · have h1 : ¬ (len : Int) ≤ 1 := by omega
+    by_cases hc : code = 12
+    · by_cases hb : len > 1024
+      · obtain ⟨c, h⟩ := dec_oversize E code len hdr stream ty hb
+        rw [h]; simp [D17.unmarshal, hl, hc, hb, maxExtLen, unknownWithRefinementsExt, recoverErr, toV]
+      · have h2 : ¬ (len : Int) > 1024 := by omega
+        have h3 : ¬ ((len : Int) < 0) := by omega
+        subst hc
+        cases hdr with
+        | other =>
+          simp [unmarshalUnknownValue, decodeExtHeader, h1, h2, h3, makeBytes, readBody, newBodyDecoder, decodeMapLen,
+            recoverWith, toV, D17.unmarshal, hl, hb, recoverErr, maxExtLen, unknownWithRefinementsExt, newErrorf]
+        | ext =>
+          simp [unmarshalUnknownValue, decodeExtHeader, h1, h2, h3, makeBytes, readBody, newBodyDecoder, decodeMapLen,
+            recoverWith, toV, D17.unmarshal, hl, hb, recoverErr, maxExtLen, unknownWithRefinementsExt, newErrorf]
+        | nil =>
+          cases hd : ty.isDyn
+          · simp [unmarshalUnknownValue, decodeExtHeader, h1, h2, h3, makeBytes, readBody, newBodyDecoder, decodeMapLen,
+              D17.unmarshal, hl, hb, maxExtLen, unknownWithRefinementsExt, newErrorf, hd, valRefine, unknownVal,
+              toValue, toValue?, optRes, unmarshalUnknownValue_loop_1]
+            cases hi : Refine.init (Value.unknown ty) <;> simp [recoverWith, recoverErr, toV, Res.bind]
+            rename_i b0
+            cases hn : Refine.newValue b0 <;> simp [builderNewValue, hn, Res.map, recoverWith, recoverErr, toV, Res.bind]
+          · simp [unmarshalUnknownValue, decodeExtHeader, h1, h2, h3, makeBytes, readBody, newBodyDecoder, decodeMapLen,
+              D17.unmarshal, hl, hb, maxExtLen, unknownWithRefinementsExt, newErrorf, hd, unknownVal, recoverWith,
+              recoverErr, toV]
+        | map n =>
+          cases hd : ty.isDyn
+          · rw [body_eq E len n stream ty hl hb hd]
+            simp only [D17.unmarshal]
+            simp only [hl, hb, maxExtLen, unknownWithRefinementsExt, hd, if_false, ne_eq, not_true_eq_false, Bool.false_eq_true]
+            cases hi : Refine.init (Value.unknown ty) with
+            | ok b0 =>
+              simp only [rbind_ok]
+              refine (fin_congr _ (loop_eq E ty _ _ _ _ _ _ none (kFin ty) n stream 0 b0 false 0 9223372036854775807)).trans ?_
+              apply fin_model
+              cases hr : D17.rfnLoop E ty n stream b0 D17.lenSt0 with
+              | ok r =>
+                have hr' : D17.rfnLoop E ty n stream b0 ⟨false, 0, 9223372036854775807⟩ = .ok r := hr
+                simp only [hr', rbind_ok]
+                exact kFin_eq ty r.1 r.2
+              | _ =>
+                have hr' : D17.rfnLoop E ty n stream b0 ⟨false, 0, 9223372036854775807⟩ = _ := hr
+                simp only [hr']; rfl
+            | _ => rfl
+          · simp [unmarshalUnknownValue, decodeExtHeader, h1, h2, h3, makeBytes, readBody, newBodyDecoder, decodeMapLen,
+              D17.unmarshal, hl, hb, maxExtLen, unknownWithRefinementsExt, newErrorf, hd, unknownVal, recoverWith,
+              recoverErr, toV]
+    · obtain ⟨c, h⟩ := dec_wrong_code E code len hdr stream ty (by omega) hc
+      rw [h]; simp [D17.unmarshal, hl, hc, unknownWithRefinementsExt, recoverErr, toV]
 
 end
 end D16b
